@@ -57,6 +57,7 @@ def detect(sid, tier="quick"):
             sigs = [l.strip() for l in r.stdout.splitlines() if l.strip().startswith("signature:")]
             out[prop] = {"exit": r.returncode, "violations": len(viol), "signatures": sigs[:4]}
         meta.setdefault("detected", {})[tier] = out
+        meta.setdefault("first_verdict", "caught" if any(v["exit"] == 1 for v in out.values()) else "missed")
         meta["caught"] = any(v["exit"] == 1 for t in meta["detected"].values() for v in t.values())
         json.dump(meta, open(os.path.join(d, "meta.json"), "w"), indent=1)
         print(sid, "CAUGHT" if any(v["exit"] == 1 for v in out.values()) else "MISSED", json.dumps(out)[:500])
@@ -75,11 +76,55 @@ def imp(src, sid, prop):
                "needs_to_manifest": "see notes.txt", "notes_head": notes[:600]}, open(os.path.join(d, "meta.json"), "w"), indent=1)
 
 
+def wave_of(sid):
+    parts = sid.split("-")
+    return int(parts[1][1:]) if len(parts) == 3 else 1
+
+
+def readme():
+    rows = []
+    for sid in sorted(os.listdir(os.path.join(V, "seeded"))):
+        mp = os.path.join(V, "seeded", sid, "meta.json")
+        if not os.path.exists(mp):
+            continue
+        m = json.load(open(mp))
+        det = (m.get("detected") or {}).get("quick") or {}
+        sig = next((s_.replace("signature: ", "") for v in det.values() for s_ in v.get("signatures", ())), "")
+        exits = [v["exit"] for v in det.values()]
+        verdict = "caught" if 1 in exits else ("harness-error" if any(e not in (0, 1) for e in exits) else "missed")
+        rows.append((sid, m["property"], wave_of(sid), "yes" if m.get("valid") else "NO", verdict, m.get("first_verdict", "") if wave_of(sid) >= 4 else "", sig))
+    o = ["# Seeded property-breaking changes", "",
+         "Each directory holds `patch.diff` (the change to byuccl/spydrnet), `demo.py` (exits 1 with the change, 0 without),",
+         "`notes.txt` (what the change is and what it needs in order to manifest, written by the sub-agent that produced it from",
+         "the property text alone) and `meta.json` (what was run here: `tools/seeded.py validate` - the repository's own tests",
+         "still pass, the demo fails with / passes without the change - and `tools/seeded.py detect` - the property's quick check",
+         "run against a scratch worktree carrying the change).", "",
+         "Ids: wave 1 `<prop>-mK`, later waves `<prop>-w<N>-mK`.  \"verdict\" is that of the *current* checks (last `detect` run);",
+         "\"at first\" is the verdict of the checks as they stood when the change arrived (recorded from wave 4 on; the counts for",
+         "the earlier waves are in DESIGN.md 9.7, together with what each miss led to).  Regenerate with `tools/seeded.py readme`.", "",
+         "| id | property | wave | valid | verdict | at first | first signature reported |", "|---|---|---|---|---|---|---|"]
+    for r in rows:
+        o.append("| %s | %s | %d | %s | %s | %s | %s |" % r)
+    by = {}
+    for r in rows:
+        b = by.setdefault(r[2], [0, 0, 0])
+        b[0] += 1
+        b[1] += r[4] == "caught"
+        b[2] += r[5] == "caught"
+    o += ["", "| wave | changes | caught now | caught at first (where recorded) |", "|---|---|---|---|"]
+    for wv in sorted(by):
+        o.append("| %d | %d | %d | %s |" % (wv, by[wv][0], by[wv][1], by[wv][2] if wv >= 4 else "see DESIGN.md 9.7"))
+    open(os.path.join(V, "seeded", "README.md"), "w").write("\n".join(o) + "\n")
+    print("seeded/README.md: %d changes, %d caught" % (len(rows), sum(r[4] == "caught" for r in rows)))
+
+
 if __name__ == "__main__":
     cmd = sys.argv[1]
     if cmd == "import":
         imp(sys.argv[2], sys.argv[3], sys.argv[4])
     elif cmd == "validate":
         validate(sys.argv[2])
+    elif cmd == "readme":
+        readme()
     elif cmd == "detect":
         detect(sys.argv[2], sys.argv[4] if len(sys.argv) > 4 else "quick")
